@@ -14,6 +14,13 @@ import (
 
 func init() {
 	props["C02"] = prop{Run: runC02, Replay: func(id string, raw json.RawMessage) {
+		if bytes.Contains(raw, []byte(`"hello_kind"`)) { // an end-to-end session (see runC02)
+			var nc ncCase
+			if json.Unmarshal(raw, &nc) == nil {
+				runNCCase(id, &nc)
+			}
+			return
+		}
 		var c c02Case
 		if json.Unmarshal(raw, &c) == nil {
 			runC02Case(id, &c)
@@ -249,6 +256,15 @@ func runC02(seed uint64, n int, tier string) {
 		cases = append(cases, &c02Case{Version: "1.1", Class: cl, Raw: []byte(s)})
 	}
 	parallel(len(cases), func(i int) { runC02Case(caseID("C02", seed, i), cases[i]) })
+	// "for every way its bytes are split into transport reads": whole sessions through netconf.Driver
+	// (replies on time, every chunking that keeps the message-id in one chunk, echoing or not, reply
+	// sharing a read with the echo of its request or with the whole exchange); result and failure
+	// marking are compared with the session model, which decodes with the model of Record
+	k := n / 40
+	if k < 40 {
+		k = 40
+	}
+	runNC("C02", seed+977, k, tier)
 }
 
 func runC02Case(id string, c *c02Case) {
